@@ -68,6 +68,9 @@ UnyieldedRequests == \E c \in Cls : cstat[c] = "live" /\ cended[c] # "seen" /\ (
 BoundHealthy == {r \in Bound : rhealthy[r]}
 UnyieldedReplies == \E r \in BoundHealthy : rpend[r] > 0
 UnobservedReplierEnd == \E r \in BoundHealthy : rended[r] = "signalled"
+\* C08: when a peer has failed in this run, what is still owed to the healthy ones is also harm done by it
+PeerFailed == (\E c \in Cls : cstat[c] # "no" /\ ~chealthy[c]) \/ (\E r \in Rps : rstat[r] # "no" /\ ~rhealthy[r])
+Harm(props) == IF PeerFailed THEN props \cup {"C08"} ELSE props
 UnflushedReplies == \E c \in Cls : cstat[c] = "live" /\ chealthy[c] /\ cflushed[c] # Len(crecv[c])
 UnflushedRequests == \E r \in BoundHealthy : rflushed[r] # Len(rgot[r])
 SkippedNonDroppable(c, n) ==
@@ -202,16 +205,16 @@ Step(e) ==
             ELSE IF Unadopted THEN Flag({"C09", "C10"}, "quiescent_unadopted_registration")
             ELSE IF ~RejectedComplete THEN Flag({"C10", "C09", "C11"}, "quiescent_rejected_replier_not_told_and_closed")
             ELSE IF UnobservedReplierEnd THEN Flag({"C09", "C10"}, "quiescent_replier_end_unobserved")
-            ELSE IF UnyieldedReplies THEN Flag({"C09", "C02"}, "quiescent_unyielded_reply")
-            ELSE IF ~RepliesComplete THEN Flag({"C02", "C09"}, "quiescent_reply_undelivered")
-            ELSE IF UnyieldedRequests THEN Flag({"C09", "C02"}, "quiescent_unyielded_request")
-            ELSE IF ~RequestsComplete THEN Flag({"C02", "C09"}, "quiescent_request_undelivered")
-            ELSE IF UnflushedReplies THEN Flag({"C02", "C09"}, "quiescent_reply_unflushed")
-            ELSE IF UnflushedRequests THEN Flag({"C02", "C09"}, "quiescent_request_unflushed")
+            ELSE IF UnyieldedReplies THEN Flag(Harm({"C09", "C02"}), "quiescent_unyielded_reply")
+            ELSE IF ~RepliesComplete THEN Flag(Harm({"C02", "C09"}), "quiescent_reply_undelivered")
+            ELSE IF UnyieldedRequests THEN Flag(Harm({"C09", "C02"}), "quiescent_unyielded_request")
+            ELSE IF ~RequestsComplete THEN Flag(Harm({"C02", "C09"}), "quiescent_request_undelivered")
+            ELSE IF UnflushedReplies THEN Flag(Harm({"C02", "C09"}), "quiescent_reply_unflushed")
+            ELSE IF UnflushedRequests THEN Flag(Harm({"C02", "C09"}), "quiescent_request_unflushed")
             ELSE Stutter
       [] e.ev = "finished" ->
             IF ~closed THEN Flag({"C16"}, "finished_without_close")
-            ELSE IF UnflushedReplies THEN Flag({"C16"}, "finished_reply_unflushed")
+            ELSE IF UnflushedReplies THEN Flag(Harm({"C16"}), "finished_reply_unflushed")
             ELSE Stutter
       [] OTHER -> Stutter
 
